@@ -39,6 +39,9 @@ type (
 		guarded     bool
 		newTicker   func(duration time.Duration) timex.Ticker
 		lock        sync.Mutex
+		// 一次只允许一个 Add 移交批次并等待确认：confirmChan 是共用的，
+		// 否则后发送者会收走给先发送者的确认，在自己的批次进入执行之前就返回
+		handoffLock sync.Mutex
 	}
 )
 
@@ -64,8 +67,10 @@ func NewPeriodicalExecutor(interval time.Duration, container TaskContainer) *Per
 // Add 添加任务到 pe。
 func (pe *PeriodicalExecutor) Add(task any) {
 	if values, ok := pe.addAndCheck(task); ok {
+		pe.handoffLock.Lock()
 		pe.commander <- values
 		<-pe.confirmChan
+		pe.handoffLock.Unlock()
 	}
 }
 
